@@ -108,6 +108,8 @@ struct Ctx {
     seeded: BTreeMap<u64, Vec<Content>>,
     history: Vec<String>,
     lossy: bool,
+    /// the history used a tick that leaves less than 5 s of real-time slack against a timing constant
+    tight: bool,
     /// simulated seconds elapsed at each node (sum of its ticks)
     clock: Vec<u64>,
     /// node clock at its last periodic-replication trigger that was not inside the minimum interval
@@ -313,7 +315,8 @@ fn exec_inner(ctx: &mut Ctx, out: &mut Out, ws: &[&str]) -> Option<(Option<Strin
                 return None;
             }
             if let Some(old) = ctx.sim.take() {
-                if old.started.elapsed() > Duration::from_millis(3500) {
+                let limit = if ctx.tight { 800 } else { 3500 };
+                if old.started.elapsed() > Duration::from_millis(limit) {
                     ctx.slow_histories += 1;
                 }
                 old.shutdown();
@@ -325,6 +328,7 @@ fn exec_inner(ctx: &mut Ctx, out: &mut Out, ws: &[&str]) -> Option<(Option<Strin
             ctx.held = vec![BTreeMap::new(); n as usize];
             ctx.seeded.clear();
             ctx.lossy = false;
+            ctx.tight = false;
             ctx.clock = vec![0; n as usize];
             ctx.last_trigger = vec![None; n as usize];
             ctx.served_at = vec![BTreeMap::new(); n as usize];
@@ -427,6 +431,9 @@ fn exec_inner(ctx: &mut Ctx, out: &mut Out, ws: &[&str]) -> Option<(Option<Strin
             let sim = ctx.sim();
             let ok = hook::age_replication(&mut sim.nodes[i].driver, Duration::from_secs(secs));
             ctx.clock[i] += secs;
+            if ![25, 50, 1000].contains(&secs) {
+                ctx.tight = true;
+            }
             out.count("tick");
             Some((None, if ok { "ok".into() } else { "age-failed".into() }))
         }
@@ -980,9 +987,77 @@ fn gen_boundary_history(ctx: &mut Ctx, out: &mut Out, rng: &mut Rng, budget: &mu
     run(ctx, out, "dump".into(), budget);
 }
 
+const TIGHT_TICKS: [u64; 8] = [30, 31, 35, 44, 45, 46, 60, 90];
+
+/// consecutive periodic-replication rounds spaced around MIN_REPLICATION_INTERVAL_S (30 s) and REPLICATION_TIMEOUT
+/// (45 s), with records stored between rounds, on nodes with at least five replication candidates: who is skipped as
+/// "recently served", for how long, and that a record stored after the first round is advertised
+fn gen_tight_rounds_history(ctx: &mut Ctx, out: &mut Out, rng: &mut Rng, budget: &mut i64) {
+    let n = if rng.chance(1, 2) { 2 } else { 3 } as usize;
+    let run = |ctx: &mut Ctx, out: &mut Out, l: String, budget: &mut i64| {
+        exec(ctx, out, &l);
+        *budget -= 1;
+    };
+    run(ctx, out, format!("new {n}"), budget);
+    for i in 0..n {
+        let mut peers: Vec<u64> = (0..n as u64).filter(|j| *j != i as u64).collect();
+        // 5 candidates with every other node among them, or more known peers than candidates
+        let s = if rng.chance(2, 3) { CLOSE_GROUP - (n - 1) } else { rng.range(5, 8) as usize };
+        peers.extend(ctx.uni.close_strangers[i].iter().take(s).copied());
+        let l = rt_line(&ctx.uni, i, &peers);
+        run(ctx, out, l, budget);
+    }
+    let keys: Vec<u64> = vec![0, 3, 6, 4, 10, 2, 5];
+    for i in 0..n {
+        let l = kd_line(&ctx.uni, i, &keys);
+        run(ctx, out, l, budget);
+    }
+    let mut next_chunk = 0usize;
+    let main = rng.below(n as u64) as usize;
+    run(ctx, out, format!("seed {main} {} {}", keys[next_chunk], "C"), budget);
+    next_chunk += 1;
+    let rounds = rng.range(4, 9);
+    let fixed = if rng.chance(1, 2) { Some(*rng.pick(&TIGHT_TICKS)) } else { None };
+    run(ctx, out, format!("interval {main}"), budget);
+    for _ in 0..rounds {
+        // a record stored between two rounds
+        if rng.chance(1, 2) {
+            if next_chunk < 3 && rng.chance(1, 2) {
+                run(ctx, out, format!("seed {main} {} C", keys[next_chunk]), budget);
+                next_chunk += 1;
+            } else {
+                let k = *rng.pick(&keys[3..]);
+                let c = random_content(rng, k, false);
+                run(ctx, out, format!("seed {main} {k} {}", content_token(&c)), budget);
+            }
+        }
+        let d = fixed.unwrap_or_else(|| *rng.pick(&TIGHT_TICKS));
+        let i = if rng.chance(5, 6) { main } else { rng.below(n as u64) as usize };
+        run(ctx, out, format!("tick {i} {d}"), budget);
+        run(ctx, out, format!("interval {i}"), budget);
+        // deliver some of what is on the wire
+        for _ in 0..rng.below(4) {
+            let p = pending(ctx);
+            if p.is_empty() {
+                break;
+            }
+            let (id, kind, to) = *rng.pick(&p);
+            if kind == 'g' && to >= n as u64 {
+                run(ctx, out, format!("drop {id}"), budget);
+            } else {
+                run(ctx, out, format!("deliver {id}"), budget);
+            }
+        }
+    }
+    run(ctx, out, "dump".into(), budget);
+}
+
 fn gen_history(ctx: &mut Ctx, out: &mut Out, rng: &mut Rng, budget: &mut i64) {
     if rng.chance(1, 5) {
         return gen_boundary_history(ctx, out, rng, budget);
+    }
+    if rng.chance(1, 5) {
+        return gen_tight_rounds_history(ctx, out, rng, budget);
     }
     let n = if rng.chance(1, 2) { 2 } else { 3 } as usize;
     let meshed = rng.chance(3, 5);
@@ -1170,6 +1245,24 @@ fn corpus(uni: &Universe) -> Vec<String> {
         v.push("deliver 1".into());
         v.push("dump".into());
     }
+    // rounds 30-45 s apart on a node with five candidates (node 1 among them): a peer skipped as "recently served" must
+    // not have its 45 s window renewed by the skip; the chunk stored after round 1 is advertised in round 3
+    {
+        let mut peers: Vec<u64> = uni.close_strangers[0].iter().take(4).copied().collect();
+        peers.push(1);
+        v.push("new 2".into());
+        v.push(rt_line(uni, 0, &peers));
+        v.push(rt_line(uni, 1, &[0]));
+        v.push(kd_line(uni, 0, &[0, 3]));
+        v.push(kd_line(uni, 1, &[0, 3]));
+        for l in [
+            "seed 0 0 C", "interval 0", "tick 0 35", "interval 0", "seed 0 3 C", "tick 0 35", "interval 0", "tick 0 35", "interval 0", "tick 0 35", "interval 0",
+            "tick 0 44", "interval 0", "tick 0 30", "interval 0", "tick 0 45", "interval 0", "tick 0 46", "interval 0", "tick 0 31", "interval 0", "tick 0 60",
+            "interval 0", "deliver 1", "deliver 2", "dump",
+        ] {
+            v.push(l.into());
+        }
+    }
     // a trigger on an empty index still starts the minimum interval: the record uploaded right after it is advertised
     // by the first trigger that fires 30 s later, not before (shrunk from a thorough-tier oracle false alarm)
     mesh2(&mut v, &[0]);
@@ -1228,6 +1321,7 @@ fn main() {
         seeded: BTreeMap::new(),
         history: vec![],
         lossy: false,
+        tight: false,
         clock: vec![],
         last_trigger: vec![],
         served_at: vec![],
@@ -1252,7 +1346,7 @@ fn main() {
         old.shutdown();
     }
     if ctx.slow_histories > 0 {
-        out.notes.push(format!("{} histories took more than 3.5 s of real time (simulated-time comparisons assume less than 5 s)", ctx.slow_histories));
+        out.notes.push(format!("{} histories were slow in real time (more than 3.5 s, or more than 0.8 s for a history with ticks next to a timing constant, e.g. 44 s against 45 s): a simulated-time comparison may have been decided by real time", ctx.slow_histories));
     }
     out.notes.push("glue executed by the harness instead of the real code: the Cmd::Replicate match arm (calls add_keys_to_replication_fetcher directly), the KeysToFetchForReplication / QueryRequestReceived arms of Node::handle_network_event, libp2p request-response (oneshot answered directly), the run loop's select (commands polled through the hook), FailedToFetchHolders is observed but not forwarded".into());
     out.finish();
